@@ -66,7 +66,7 @@ PROPS['C16'] = {
 }
 
 PROPS['C20'] = {
-    'units': ['cfg', 'cfg_all', 'cfgfind'],
+    'units': ['cfg', 'cfg_all', 'cfgfind', 'langwire'],
     'title': 'CLI options override typeshare.toml',
     'technique': 'Verus postcondition on override_configuration (extracted verbatim, both cargo feature sets): precedence clause per dual setting '
                  '+ frame clause generated for every other leaf field of Config',
@@ -74,10 +74,12 @@ PROPS['C20'] = {
                   'typeshare.toml takes the command-line value when given else the loaded value; every file-only setting (type mappings, decorators, '
                   'constraints, acronyms, no_pointer_slice) reaches generation unchanged; target_os comes from the command line only; Err exactly for '
                   'Go without a package. Proved for feature sets {} and {go, python}. The ancestor-directory search returns the NEAREST directory (from the '
-                  'working directory upwards, the root included) that holds a typeshare.toml, None iff there is none, and terminates.',
+                  'working directory upwards, the root included) that holds a typeshare.toml, None iff there is none, and terminates. The last hop, '
+                  'main.rs::language (features go + python): the back end selected by --lang receives every leaf of its *Params section in the field of '
+                  'the same name (clauses generated from the struct definitions), Swift also multi_file.',
     'level_note': 'Kernel: override_configuration and find_configuration_file. TOML/serde round trip, -g never overwriting, load_config\'s choice between -c and '
-                  'the discovered file, and the wiring of Config into the back ends are not under contract (reported as undecided parts; bounded stand-in '
-                  'cli_config). Assumed: outlined expressions, anyhow::ensure! expansion, Path/PathBuf as component sequences with std-documented push/pop/is_file.',
+                  'the discovered file are not under contract (reported as undecided parts; bounded stand-in cli_config); that the back ends USE the '
+                  'wired fields is text emission. Assumed: outlined expressions, anyhow::ensure! expansion, Path/PathBuf as component sequences with std-documented push/pop/is_file.',
     'design_ref': 'DESIGN.md section 5 C20',
 }
 
@@ -169,6 +171,7 @@ PROPS['C09'] = {
 PROPS['C07']['units'].append('recon')
 PROPS['C07']['units'].append('genloop')
 PROPS['C07']['units'].append('cfgfind')
+PROPS['C07']['units'].append('langwire')
 PROPS['C01'] = {
     'units': ['rename', 'serdecase'],
     'title': 'field wire names equal serde\'s JSON keys (IR kernel)',
